@@ -1,5 +1,6 @@
 import PewProofs.Otsu
 import PewProofs.OtsuScale
+import PewProofs.OtsuFloat
 
 /-! # C15 — property theorems (statements only depend on `PewModel.Otsu`)
 
@@ -155,6 +156,42 @@ theorem scaled_centres_bounded (edges : List Rat) (hp : edges.Pairwise (· < ·)
 example : scaleExp [0, 1, 2, 3] = 2 ∧ scaledCentres [0, 1, 2, 3] = [1/8, 3/8, 5/8] ∧
     scaledCentres ([0, 1, 2, 3].map (pow2 511 * ·)) = [1/8, 3/8, 5/8] ∧
     otsuHistS [1, 1, 1] ([0, 1, 2, 3].map (pow2 511 * ·)) = pow2 511 * (1/2) := by decide +kernel
+
+/-! ## the criterion in floating point: "attains the maximum up to rounding", with the rounding budget made explicit
+
+`critListR fl` is `otsu` from `hist * centers` on, every arithmetic result passed through the rounding function `fl`
+(`np.cumsum`: sequential sums; class weights: exact integers).  `critListB u η` runs the same program on pairs (exact
+value, bound on |computed − exact|).  The only thing assumed of `fl` is the standard model of binary floating point,
+`|fl x − x| ≤ u·|x| + η` (binary64, round to nearest: `u = 2^-53`, `η = 2^-1075`; no overflow: the rescaled centres are
+below one in magnitude, `scaled_centres_bounded`).  Where a class is empty the float code produces NaN; these statements
+then speak of the `x/0 = 0` reading of both sides (data with two distinct values never gets there: `end_bins_occupied`). -/
+
+/-- **Every entry of the float criterion is within its budget of the exact between-class criterion** -/
+theorem float_criterion_within_budget (fl : Rat → Rat) (u η : Rat) (hu : 0 ≤ u)
+    (hfl : ∀ x, absQ (fl x - x) ≤ u * absQ x + η)
+    (hist : List Nat) (edges : List Rat) (he : edges.length = hist.length + 1) (i : Nat) (hi : i + 1 < hist.length) :
+    absQ ((critListR fl hist (scaledCentresR fl edges)).getD i 0 - specCrit hist (scaledCentres edges) i)
+        ≤ ((critListB u η hist (scaledCentresB u η edges)).getD i (0, 0)).2 ∧
+    specCrit hist (scaledCentres edges) i = pow2 (-(scaleExp edges)) ^ 2 * specCrit hist (centres edges) i := by
+  simp only [absQ_eq_abs] at hfl ⊢
+  exact ⟨float_criterion_within_budget' fl u η hu hfl hist edges he i hi, specCrit_scaled_units hist edges i⟩
+
+/-- **The cut the float code returns attains the maximum up to the budget**: `k = np.argmax` of the float criterion
+is a cut, the returned value is the float centre at `k`, and no cut `j` beats it by more than the budgets of the two
+cuts: `crit j ≤ crit k + budget k + budget j` (exact criterion, in units of `4^exponent`) -/
+theorem float_argmax_within_budget (fl : Rat → Rat) (u η : Rat) (hu : 0 ≤ u)
+    (hfl : ∀ x, absQ (fl x - x) ≤ u * absQ x + η)
+    (hist : List Nat) (edges : List Rat) (hn : 2 ≤ hist.length) (he : edges.length = hist.length + 1) :
+    argmaxFirst (critListR fl hist (scaledCentresR fl edges)) + 1 < hist.length ∧
+    otsuHistR fl hist edges = (centresR fl edges).getD (argmaxFirst (critListR fl hist (scaledCentresR fl edges))) 0 ∧
+    ∀ j, j + 1 < hist.length →
+      specCrit hist (scaledCentres edges) j ≤
+        specCrit hist (scaledCentres edges) (argmaxFirst (critListR fl hist (scaledCentresR fl edges)))
+        + ((critListB u η hist (scaledCentresB u η edges)).getD
+            (argmaxFirst (critListR fl hist (scaledCentresR fl edges))) (0, 0)).2
+        + ((critListB u η hist (scaledCentresB u η edges)).getD j (0, 0)).2 := by
+  simp only [absQ_eq_abs] at hfl
+  exact float_argmax_within_budget' fl u η hu hfl hist edges hn he
 
 /-! ## runs of empty bins: which maximiser comes back -/
 
@@ -410,6 +447,40 @@ example : otsuData ([1, 3, 1, 3, 3].map ((8 : Rat) * ·)) 4 = 8 * (5/4) := by de
 example : ([1, 2, 3, 4, 5] : List Rat).Pairwise (· < ·) ∧ ([1, 2, 3, 4, 5] : List Rat).getD 0 0 ∈ ([1, 2, 1, 4, 5, 5] : List Rat) ∧
     ([1, 2, 3, 4, 5] : List Rat).getD 4 0 ∈ ([1, 2, 1, 4, 5, 5] : List Rat) ∧
     histogramE [1, 2, 3, 4, 5] [1, 2, 1, 4, 5, 5] = [2, 1, 0, 3] ∧ otsuEdges [1, 2, 3, 4, 5] [1, 2, 1, 4, 5, 5] = 5/2 := by
+  decide +kernel
+
+/-! ## the float criterion -/
+
+/-- with exact arithmetic (`fl = id`, `u = η = 0`) the budget is zero and the float program is the mechanism -/
+example : critListR id exHist (scaledCentresR id exEdges) = [121/128, 121/128, 49/64] ∧
+    (critListB 0 0 exHist (scaledCentresB 0 0 exEdges)).map Prod.snd = [0, 0, 0] := by decide +kernel
+
+/-- a rounding function that meets the hypothesis: rounding down to multiples of 1/1024 (`u = 0`, `η = 1/1024`) -/
+def exFl (x : Rat) : Rat := ((x * 1024).floor : Rat) / 1024
+
+example : ∀ x, absQ (exFl x - x) ≤ 0 * absQ x + 1 / 1024 := by
+  intro x
+  simp only [absQ_eq_abs]
+  unfold exFl
+  have h1 := Rat.floor_le (x * 1024)
+  have h2 := Rat.lt_floor_add_one (x * 1024)
+  push_cast at h2
+  rw [abs_le]
+  constructor
+  · rw [← sub_nonneg]
+    have : ((x * 1024).floor : Rat) / 1024 - x - -(0 * |x| + 1 / 1024) = (((x * 1024).floor : Rat) + 1 - x * 1024) / 1024 := by ring
+    rw [this]
+    apply div_nonneg <;> linarith
+  · rw [← sub_nonneg]
+    have : 0 * |x| + 1 / 1024 - (((x * 1024).floor : Rat) / 1024 - x) = (1 + (x * 1024 - ((x * 1024).floor : Rat))) / 1024 := by ring
+    rw [this]
+    apply div_nonneg <;> linarith
+
+/-- ... and the float criterion it produces on the example histogram, with its budget: every entry is within it -/
+example : critListR exFl exHist (scaledCentresR exFl exEdges) = [121/128, 121/128, 783/1024] ∧
+    (critListB 0 (1/1024) exHist (scaledCentresB 0 (1/1024) exEdges)).map Prod.fst = [121/128, 121/128, 49/64] ∧
+    (critListB 0 (1/1024) exHist (scaledCentresB 0 (1/1024) exEdges)).all
+      (fun p => decide (1/1024 ≤ p.2 ∧ p.2 ≤ 1/16)) = true := by
   decide +kernel
 
 /-! ## `np.histogram` in double precision: Lean's `Float` operations are those of `Float.Model` (IEEE-754 binary64),
